@@ -147,7 +147,8 @@ def execute(task, package_dir):
             violation("no_progress_within_step_budget", result.events, {"steps": kernel.step,
                                                                         "reference_events": reference.events})
     elif result.status == "crash":
-        violation("crash", result.events, {"traceback": (result.error or "")[-2500:]})
+        summary["violations"].append(common.crash_violation(ID, result))
+        summary["status"] = "violation"
     elif result.status == "harness_error":
         summary["status"] = "harness_error"
         summary["error"] = result.error
